@@ -117,7 +117,7 @@ def enum_from(P):
 def obligations(L, tier):
     P, S = get_world()
     obs = []
-    sizes = (0, 1) if tier == "quick" else (0, 1, 2)
+    sizes = (0, 1, 2) if tier == "quick" else (0, 1, 2, 3)
     for fname in ("set_order", "set_order_clone"):
         fs = [f for f in P.by_name.get(fname, []) if f.kind == "fn" and not f.is_closure]
         if len(fs) != 1:
@@ -130,7 +130,7 @@ def obligations(L, tier):
     for f in enum_from(P):
         s = deref_ty(f.params[0][1]).name
         for k in (KINDS if s == "Number" else ({"f64": "F64"}.get(s, s),)):
-            for ln in ((0,) if k == "F64" else sizes + ((2,) if tier == "quick" else ())):
+            for ln in ((0,) if k == "F64" else sizes):
                 obs.append(dict(id=f"{dual_ad.sig(f)} source {k}|{ln}|", kind="from", fn=f.index, k=k, ln=ln))
     for kd, op, f in enum_number_ops(P):
         b = [deref_ty(t).name for _, t in f.params]
@@ -540,7 +540,7 @@ def run(tier, seed):
         tot["undecided"].append(f"unexpected panic leaves: {tot['panics'][:3]}")
     standard_finish(PID, ev, obs, results, tot, role_of,
                     bounds={"tables": "set_order and set_order_clone 3x3 (source kind x target order) - complete; every From impl of from.rs; every Number operator body x all 9 kind pairings - complete",
-                            "contents": "contained Dual/Dual2 with 0..1 (quick) / 0..2 (thorough) symbolic names and symbolic real contents; requested name lists of 0..2 symbolic names, duplicates allowed",
+                            "contents": "contained Dual/Dual2 with 0..2 (quick) / 0..3 (thorough) symbolic names and symbolic real contents; requested name lists of 0..2 symbolic names, duplicates allowed",
                             "outside": "more names per number; IEEE rounding"},
                     rule="obligation = (function body, kind pairing, sizes); explored into feasible paths; one validity query per path. "
                          "For Number operators the oracle is the same operator executed on the contained values (their own MIR bodies), so a wrong arm or a computing mixed arm is a disagreement",
